@@ -92,7 +92,7 @@ def oracle(case, go, mo):
     last = go["res"][-1]
     exp_cases = [chain_case([d], env={}, tail=("outdocs",)) for d in case["expect_docs"]]
     exp_out = []
-    for r in run_cases(exp_cases) if exp_cases else []:
+    for r in (case.get("_exp_res") if "_exp_res" in case else (run_cases(exp_cases) if exp_cases else [])):
         l = r[1]["res"][-1] if r[1] and "res" in r[1] else {}
         if "ok" not in l:
             return None  # the hand expansion itself is rejected: not a usable expectation
@@ -104,6 +104,21 @@ def oracle(case, go, mo):
     return None
 
 
+def batch_aux(cases, results):
+    flat, idx = [], []
+    for i, c in enumerate(cases):
+        if "expect_docs" in c:
+            for d in c["expect_docs"]:
+                flat.append(chain_case([d], env={}, tail=("outdocs",)))
+                idx.append(i)
+    res = run_cases(flat) if flat else []
+    for c in cases:
+        if "expect_docs" in c:
+            c["_exp_res"] = []
+    for i, r in zip(idx, res):
+        cases[i]["_exp_res"].append(r)
+
+
 def nontrivial(case, go, mo):
     return "$repeat" in str(case["steps"])
 
@@ -113,7 +128,7 @@ def run(rep):
                  "document-level $repeat (count 0-5, 1-3 named counts, bodies using $repeat / {$repeat} / {$repeat:name} in values, "
                  "interpolations, lists, nested maps; optional upper layer overriding the count) judged by the model and by "
                  "evaluating the hand-expanded documents on the implementation; plus nested list/map repeats and malformed counts "
-                 "judged by the model; non-trivial = contains $repeat", oracle=oracle)
+                 "judged by the model; non-trivial = contains $repeat", oracle=oracle, batch_aux=batch_aux)
 
 
 def replay(rep, payload):
